@@ -54,6 +54,7 @@ type gen struct {
 	exitReach map[*ssa.BasicBlock]string
 	exitState map[*ssa.BasicBlock]map[string]string
 	edgeCond  map[[2]*ssa.BasicBlock]string
+	edgeTaken map[[2]*ssa.BasicBlock]string
 	cur       map[string]string
 	curReach  string
 	curBlock  *ssa.BasicBlock
@@ -68,6 +69,7 @@ type gen struct {
 	stable    map[*ssa.Alloc]bool
 	allocAddr map[*ssa.Alloc]string
 	callOrd   map[string]int
+	callReach map[string]string
 	debugVars map[*ssa.BasicBlock]map[string]T
 	loopOrd   map[*ssa.BasicBlock]int
 	closures  map[ssa.Value]*ssa.MakeClosure
@@ -89,6 +91,7 @@ type gen struct {
 }
 
 type retSite struct {
+	block *ssa.BasicBlock
 	reach string
 	vals  []T
 	state map[string]string
